@@ -30,6 +30,8 @@ import numpy as np
 from . import common as C
 
 PID = "C09"
+# Translator: harness/gen_c09.py regenerates lean/HydroVerif/Generated/C09Consts.lean (KEY_LENGTH_MAX and the extension list
+# of _check_name) from csv.py before the proofs are rebuilt: the theorems are re-checked against the constants the code holds now.
 RESERVED = {"nrow", "ncol", "time_generated", "author", "source_file", "work_dir", "python_environment",
             "python_version", "pandas_version", "numpy_version", "python_inc", "python_lib"}
 
@@ -287,6 +289,7 @@ def body(ctx):
 
 
 def main(tier, replay=None):
-    return C.run_check(PID, tier, body, replay=replay,
+    from . import gen_c09
+    return C.run_check(PID, tier, body, replay=replay, regen=gen_c09.regen,
                        trusted=["pandas to_csv/read_csv, zipfile, pathlib, the file system (external)",
                                 "python `re` on single-line ASCII strings (modelled as list functions, compared by result)"])
